@@ -759,6 +759,10 @@ class Tr:
             if nm in self.co:
                 o.append('void %s(void) { __vf_bad_icall(); }' % self.cid(nm))
         o += fbodies
+        if self.co_enabled and '@__vf_thread_entry' in self.co:
+            gf = next(f for f in self.funcs if f[0] == '@__vf_thread_entry')
+            o.append('void __vf_co_start(int t) { fr___vf_thread_entry[t].pc = 0; fr___vf_thread_entry[t].v_%s = (uint32_t)t; }' % self.cid(gf[2][0][1]))
+            o.append('int __vf_co_resume(void) { return __vf_thread_entry_co(); }')
         ctors = getattr(self, 'ctors', [])
         o.append('void __vf_global_ctors(void) { %s }' % ' '.join('%s();' % self.cid(c) for c in ctors if c in self.defined))
         return '\n'.join(o) + '\n'
@@ -1389,7 +1393,11 @@ class Tr:
                 self.co_mem.append('%s %s_mem;' % (self.ctype(t), 'v_' + self.cid(d)))
                 return ['%s = &%s_mem;' % (L(d), L(d))]
             if n in ('1', '1U', '1ULL'):
-                return ['%s %s_mem; %s = &%s_mem;' % (self.ctype(t), L(d), L(d), L(d))]
+                # clang coerces small classes to literal types such as { i64, i64 } and then stores narrower fields into them: on a
+                # nondeterministic base CBMC keeps nested byte_update terms that its simplifier does not fold, which makes concrete
+                # data look symbolic. Literal-struct / integer allocas therefore start zeroed (named class types stay nondeterministic).
+                init = ' = {0}' if t[0] == 'struct' else ''
+                return ['%s %s_mem%s; %s = &%s_mem;' % (self.ctype(t), L(d), init, L(d), L(d))]
             return ['%s = __builtin_alloca(sizeof(%s) * %s);' % (L(d), self.ctype(t), n)]
         if k == 'br':
             return [self.goto(bl, ins[1], phis)]
